@@ -22,11 +22,13 @@ type Program struct {
 	ByPth map[string]*packages.Package // all loaded packages (incl. deps)
 	Funcs map[*types.Func]*Func        // every declared function/method of the repo packages
 	Lits  map[*ast.FuncLit]*Func       // every function literal in repo packages
-	All   []*Func                      // declared funcs, sorted
+	All   []*Func                      // declared funcs of the repository, sorted
+	Ext   []*Func                      // declared funcs of indexed dependency packages
 
 	info map[*ast.File]*packages.Package
 
-	deep bool // deps loaded with syntax
+	deep    bool // deps loaded with syntax
+	allPkgs []*packages.Package
 }
 
 // Func is a declared function, method or function literal of a repo package.
@@ -108,9 +110,19 @@ func Load(dir string, deep bool, overlay map[string][]byte) (*Program, error) {
 		p.Pkgs = append(p.Pkgs, pk)
 	}
 	sort.Slice(p.Pkgs, func(i, j int) bool { return p.Pkgs[i].PkgPath < p.Pkgs[j].PkgPath })
+	p.allPkgs = pkgs
+	p.deep = true
 	for _, pk := range p.Pkgs {
 		p.indexPkg(pk)
 	}
+	nRepo := len(p.All)
+	for _, path := range extraIndexed {
+		if pk := p.ByPth[path]; pk != nil && len(pk.Syntax) > 0 && pk.TypesInfo != nil {
+			p.indexPkg(pk)
+		}
+	}
+	p.Ext = append(p.Ext, p.All[nRepo:]...)
+	p.All = p.All[:nRepo]
 	sort.Slice(p.All, func(i, j int) bool { return p.All[i].Name < p.All[j].Name })
 	return p, nil
 }
